@@ -195,6 +195,7 @@ static void run_sched(vh_rng *r, long long histories) {
 
 /* =============================================================== OS-scheduled stress */
 #define MAXT 64
+static long long st_read_holds_max, st_read_holds_refused;
 static PRWLock *srw; static volatile int aR, aW; static long long s_rounds; static volatile long long progress;
 #ifdef HB_MODE
 static unsigned long long payload[8];
@@ -255,8 +256,25 @@ static void run_stress(int T, long long rounds) {
 	  scen = "readers-share"; p_rwlock_reader_lock(srw); pthread_create(&tb, NULL, share_b, sems); sem_wait(&b_in); p_rwlock_reader_unlock(srw); pthread_join(tb, NULL); __atomic_add_fetch(&progress, 1, __ATOMIC_RELAXED); }
 	/* try* never block and are FALSE against a writer */
 	{ scen = "try-while-writer-holds"; p_rwlock_writer_lock(srw); { extern void *try_probe(void *); pthread_t tp; void *res; pthread_create(&tp, NULL, try_probe, NULL); pthread_join(tp, &res); if (res) viol("try-true-while-writer", "a trylock returned TRUE while another thread held the write lock"); } p_rwlock_writer_unlock(srw); __atomic_add_fetch(&progress, 1, __ATOMIC_RELAXED); }
-	p_rwlock_free(srw); st_stress_runs++;
+	/* "any number of readers": many read holds at the same time (taken by one thread, shared mode never blocks against readers).  A lock call may
+	 * refuse (return FALSE) at an implementation limit, but the lock must stay consistent: exclusive against writers while held, free afterwards. */
+	{ static const long hold_n[] = { 1000, 32767, 32768, 33100 }; int hi;
+	  for (hi = 0; hi < 4 && vh_nviol < vh_max_viol; hi++) {
+		long want = hold_n[hi], got = 0, i; pthread_t tp; void *res;
+		scen = "many-simultaneous-read-holds";
+		for (i = 0; i < want; i++) { if (!p_rwlock_reader_lock(srw)) break; got++; if ((i & 1023) == 0) __atomic_add_fetch(&progress, 1, __ATOMIC_RELAXED); }
+		st_read_holds_max = got > st_read_holds_max ? got : st_read_holds_max; if (got < want) st_read_holds_refused++;
+		{ extern void *wtry_probe(void *); pthread_create(&tp, NULL, wtry_probe, NULL); pthread_join(tp, &res); if (res) viol("writer-with-readers", "writer trylock returned TRUE while %ld read holds were outstanding", got); }
+		for (i = 0; i < got; i++) { if (!p_rwlock_reader_unlock(srw)) { viol("unlock-failed", "reader unlock %ld of %ld returned FALSE", i, got); break; } if ((i & 1023) == 0) __atomic_add_fetch(&progress, 1, __ATOMIC_RELAXED); }
+		if (vh_nviol) break;
+		if (!p_rwlock_writer_trylock(srw)) viol("not-free-after-readers-left", "after %ld simultaneous read holds were all released the lock is not grantable to a writer", got); else p_rwlock_writer_unlock(srw);
+		if (!vh_nviol) { if (!p_rwlock_reader_trylock(srw)) viol("not-free-after-readers-left", "after %ld simultaneous read holds were all released the lock is not grantable to a reader", got); else p_rwlock_reader_unlock(srw); }
+		__atomic_add_fetch(&progress, 1, __ATOMIC_RELAXED);
+	  } }
+	if (!vh_nviol) p_rwlock_free(srw);
+	st_stress_runs++;
 }
+void *wtry_probe(void *a) { long bad = 0; (void)a; if (p_rwlock_writer_trylock(srw)) { bad = 1; p_rwlock_writer_unlock(srw); } return (void *)bad; }
 void *share_b(void *a) { sem_t **s = a; p_rwlock_reader_lock(srw); sem_post(s[1]); p_rwlock_reader_unlock(srw); return NULL; }
 void *try_probe(void *a) { long bad = 0; (void)a; if (p_rwlock_reader_trylock(srw)) { bad = 1; p_rwlock_reader_unlock(srw); } if (p_rwlock_writer_trylock(srw)) { bad = 1; p_rwlock_writer_unlock(srw); } return (void *)bad; }
 
@@ -273,10 +291,10 @@ int main(int argc, char **argv) {
 		for (tok = strtok_r(tmp, ",", &sv); tok; tok = strtok_r(NULL, ",", &sv)) { int T = atoi(tok); if (T >= 1 && T <= MAXT) run_stress(T, n / T + 50); }
 	}
 	printf("{\"ev\":\"stats\",\"mode\":\"%s\",\"model\":\"%s\",\"histories\":%lld,\"distinct_traces\":%zu,\"distinct_states\":%zu,\"sched_points\":%lld,\"cond_waits\":%lld,\"spurious_injected\":%lld,\"signals\":%lld,\"broadcasts\":%lld,"
-	       "\"grants_r\":%lld,\"grants_w\":%lld,\"try_true\":%lld,\"try_false\":%lld,\"max_readers\":%lld,\"stress_runs\":%lld,\"stress_grants\":%lld,\"stress_try_true\":%lld,\"stress_try_false\":%lld,\"stress_max_readers\":%d,"
+	       "\"grants_r\":%lld,\"grants_w\":%lld,\"try_true\":%lld,\"try_false\":%lld,\"max_readers\":%lld,\"stress_runs\":%lld,\"stress_grants\":%lld,\"stress_try_true\":%lld,\"stress_try_false\":%lld,\"stress_max_readers\":%d,\"max_simultaneous_read_holds\":%lld,\"read_hold_series_refused_at_a_limit\":%lld,"
 	       "\"stress_yields\":%lld,\"stress_spurious\":%lld,\"viol\":%d,\"wall\":%.2f}\n",
 	       mode, VH_MODEL, st_histories, tcnt, scnt, st_sched_points, st_cond_waits, st_spurious, st_signals, st_broadcasts, st_grants_r, st_grants_w, st_try_true, st_try_false, st_max_readers,
-	       st_stress_runs, st_stress_grants, st_stress_try_t, st_stress_try_f, st_stress_maxr, st_yields, st_stress_spurious, vh_nviol, vh_now() - t0);
+	       st_stress_runs, st_stress_grants, st_stress_try_t, st_stress_try_f, st_stress_maxr, st_read_holds_max, st_read_holds_refused, st_yields, st_stress_spurious, vh_nviol, vh_now() - t0);
 	fflush(stdout);
 	_exit(0);
 }
